@@ -11,7 +11,12 @@ RULE = ("seeded scenarios on one Capacities or Resources supply with 1-2 named i
         "per (borrower, kind in cancel/interrupt/close, kernel event). supply.levels is sampled "
         "before every activation. Non-trivial = a borrower had to wait or a fault struck inside "
         "acquire/hold/release; distinct = distinct sequence of (actor, resource event, amounts) "
-        "plus fault position.")
+        "plus fault position."
+        " A fifth of the scenarios are `mixed` programs (usimdst/mixed.py): two locks, a "
+        "queue, a channel and a capacity supply used by the same activities in nested "
+        "blocks. After the single-fault sweep, seeded pairs of cancels and seeded fault "
+        "sequences of mixed kinds (2-3 victims, each with its own kind) are run as well; "
+        "a tenth of the budget runs under python -O.")
 BUDGET = {"quick": {"cases": 400, "wall_s": 240, "chunk": 2, "per_group": 25},
           "thorough": {"cases": 3500, "wall_s": 1500, "chunk": 5, "per_group": 400}}
 ASSUMPTIONS = ["a block torn down by a signal may take until the end of the current time step "
